@@ -36,12 +36,13 @@ KINDS = [(False, False), (True, False), (False, True), (True, True)]  # (toggle,
 _cache = {}
 
 
-def kit(toggle, special, modes=MODES):
+def kit(toggle, special, modes=MODES, cov=None):
     from aioswitcher.api.remotes import SwitcherBreezeRemote
 
-    k = (toggle, special, modes)
+    cov = tuple(cov) if cov else ("base", "fan", "swing")
+    k = (toggle, special, modes, cov)
     if k not in _cache:
-        s = IR.make_set("ELEC7022" if special else "ELEC7001", toggle=toggle, modes=modes, tmin=16, tmax=30)
+        s = IR.make_set("ELEC7022" if special else "ELEC7001", toggle=toggle, modes=modes, tmin=16, tmax=30, coverage=cov, on_coverage=cov if toggle else ())
         _cache[k] = (SwitcherBreezeRemote(s), s)
     return _cache[k]
 
@@ -62,7 +63,7 @@ def requests(tier):
     return list(itertools.product((None, "on", "off"), (None, "cool", "dry", "heat"), (0, 16, 30), (None, "auto", "high"), (None, "on", "off")))
 
 
-def model(rep, req, toggle, special, update, modes=MODES):
+def model(rep, req, toggle, special, update, modes=MODES, cov=None):
     """-> dict(shape=[frame kinds], main=..., swing_key=..., error=None|'nothing'|'unsupported')"""
     st, mode, temp, fan, sw = req
     main = bool(st or mode or temp or fan or (sw and not special))
@@ -84,7 +85,7 @@ def model(rep, req, toggle, special, update, modes=MODES):
         if update:
             shape.append("breeze_update")
         else:
-            _, ir_set = kit(toggle, special, modes)
+            _, ir_set = kit(toggle, special, modes, cov)
             sel = IR.select(ir_set, merged["on"], merged["mode"], merged["temp"], merged["fan"], merged["swing"], rep["on"])
             out["select"] = sel
             if sel[0] in ("unsupported-mode",):
@@ -126,11 +127,12 @@ class Runner:
         toggle, special, update = case["toggle"], case["special"], case["update"]
         modes = tuple(case.get("modes") or MODES)
         eof_at = case.get("eof")
-        m = model(rep, req, toggle, special, update, modes)
+        cov = case.get("cov")
+        m = model(rep, req, toggle, special, update, modes, cov)
         w = self.world(fresh=eof_at is not None)
         if eof_at is not None:
             w.dirty = True
-        remote, _ = kit(toggle, special, modes)
+        remote, _ = kit(toggle, special, modes, cov)
         script = [Ellipsis] * 6
         if eof_at is not None:
             script[eof_at] = None
@@ -275,6 +277,14 @@ def all_cases(tier):
                     n = len(model(rep, tuple(req), toggle, special, update)["shape"])
                     for k in range(n):
                         cases.append(dict(rep=rep, req=list(req), toggle=toggle, special=special, update=update, eof=k))
+    # remotes whose code set has no swing entries at all (or none with a fan level): the status frame still reports the
+    # merged swing, the IR command falls back to the entry without it
+    for cov in (("base", "fan"), ("base",)):
+        for rep in reps[:: max(1, len(reps) // 8)]:
+            for req in ((None, None, 0, None, "on"), ("on", None, 0, None, None), (None, "fan", 0, "high", "on"), ("off", "cool", 21, None, None), (None, None, 0, "low", "off")):
+                for toggle in (False, True):
+                    for update in (False, True):
+                        cases.append(dict(rep=rep, req=list(req), toggle=toggle, special=False, update=update, cov=list(cov)))
     # remotes that lack the merged mode
     for modes in (("cool",), ("cool", "heat"), ("auto", "dry", "fan")):
         for rep in reps[:: max(1, len(reps) // 10)]:
